@@ -563,6 +563,100 @@ def rw_replace_text(toks, counts, old, new, rule, required=True):
     return relex(text(res))
 
 
+def rw_ref_patterns(toks, counts):
+    """R15: a reference pattern `&P` inside a match arm becomes `P` (default binding mode), and every
+    identifier x bound inside P is re-bound by `let x = *x;` at the head of the arm body. `&P` can only
+    bind Copy values by value, so the re-binding restores exactly the original types and values."""
+    n = 0
+    while True:
+        si = sig_idx(toks)
+        hit = None
+        for a in range(len(si) - 1):
+            i = si[a]
+            if not (toks[i].text == "=" and toks[si[a + 1]].text == ">" and si[a + 1] == i + 1):
+                continue
+            # pattern start: walk back to the previous `,` `{` `}` at depth 0 (relative)
+            d = 0
+            b = a - 1
+            while b >= 0:
+                t = toks[si[b]]
+                if t.kind == "p" and t.text in ")]":
+                    d += 1
+                elif t.kind == "p" and t.text in "([":
+                    d -= 1
+                elif t.kind == "p" and t.text in ",{}" and d == 0:
+                    break
+                elif t.kind == "p" and t.text == ">" and d == 0 and toks[si[b - 1]].text == "=":
+                    break
+                b -= 1
+            pat = si[b + 1:a]
+            # find `&` followed by an identifier inside the pattern (not in a guard)
+            amp = None
+            for x in range(len(pat) - 1):
+                tk = toks[pat[x]]
+                if tk.kind == "id" and tk.text == "if":
+                    break
+                if tk.kind == "p" and tk.text == "&" and toks[pat[x + 1]].kind == "id" and toks[pat[x + 1]].text not in ("mut",):
+                    amp = x; break
+            if amp is None:
+                continue
+            # extent of the sub-pattern: path [ (..) | {..} ]
+            y = amp + 1
+            while y + 2 < len(pat) and toks[pat[y + 1]].text == ":" and toks[pat[y + 2]].text == ":":
+                y += 3
+            end = pat[y]
+            if y + 1 < len(pat) and toks[pat[y + 1]].text in "({":
+                end = match_close(toks, pat[y + 1])
+            binds = []
+            sub = [k for k in range(pat[amp + 1], end + 1) if is_sig(toks[k])]
+            for q, k in enumerate(sub):
+                t = toks[k]
+                if t.kind != "id" or not (t.text[0].islower() or t.text[0] == "_") or t.text in ("_", "ref", "mut"):
+                    continue
+                nxt = toks[sub[q + 1]].text if q + 1 < len(sub) else ""
+                prv = toks[sub[q - 1]].text if q > 0 else ""
+                if nxt in ("(", "{", "!") or (nxt == ":" and q + 2 < len(sub) and toks[sub[q + 2]].text == ":") or prv == ":":
+                    continue
+                binds.append(t.text)
+            hit = (pat[amp], si[a + 1], binds)
+            break
+        if not hit:
+            break
+        amp_i, arrow_end, binds = hit
+        lets = "".join("let %s = *%s; " % (b, b) for b in binds)
+        body0 = next_sig(toks, arrow_end + 1)
+        if toks[body0].kind == "p" and toks[body0].text == "{":
+            new_body_pre = toks[:body0 + 1] + relex(" " + lets)
+            rest = toks[body0 + 1:]
+            toks2 = new_body_pre + rest
+        else:
+            # expression arm: ends at `,` at depth 0 or at the closing brace of the match
+            k = body0
+            d = 0
+            while k < len(toks):
+                tk = toks[k]
+                if tk.kind == "p":
+                    if tk.text in OPEN:
+                        d += 1
+                    elif tk.text in ")]}":
+                        if d == 0:
+                            break
+                        d -= 1
+                    elif tk.text == "," and d == 0:
+                        break
+                k += 1
+            expr = toks[body0:k]
+            while expr and expr[-1].kind == "ws":
+                expr.pop()
+            toks2 = toks[:body0] + relex("{ " + lets) + expr + relex(" }") + toks[body0 + len(expr):]
+        # drop the `&`
+        toks2 = toks2[:amp_i] + toks2[amp_i + 1:]
+        toks = relex(text(toks2))
+        n += 1
+    _count(counts, "R15", n)
+    return toks
+
+
 def rw_hoist_remove_nested(toks, counts, nested_name):
     """R12: remove a nested `fn nested_name` item from a body (it is emitted separately at top level)."""
     its = find_fns(toks, nested_name)
@@ -784,6 +878,8 @@ def apply_rewrites(toks, rules, counts, ctx):
             toks = rw_rename_ident(toks, counts, args[0], args[1], args[2] if len(args) > 2 else "R13")
         elif kind == "replace":
             toks = rw_replace_text(toks, counts, args[0], args[1], args[2], args[3] if len(args) > 3 else True)
+        elif kind == "ref_patterns":
+            toks = rw_ref_patterns(toks, counts)
         elif kind == "hoist_out":
             toks = rw_hoist_remove_nested(toks, counts, args[0])
         elif kind == "rename_fn":
